@@ -100,6 +100,15 @@ def detachAt (h : Heap) (p j : Nat) : Heap :=
       releaseAll h2 [c]
     else setFault h
 
+/-- `p.remove(const Xml& e)` : the first slot holding `e`; `e->parent = NULL` (unconditionally, also when `e`'s parent is
+    another element that shares it), then `remove(i)` -/
+def detachNode (h : Heap) (p e : Nat) : Heap :=
+  if e ∈ (h.node p).kids then
+    if (h.node p).live && (h.node e).live then
+      detachAt (upd h e fun r => { r with parent := none }) p ((h.node p).kids.idxOf e)
+    else setFault h
+  else h
+
 /-- `p.clear()` -/
 def clearKids (h : Heap) (p : Nat) : Heap :=
   if (h.node p).live then
@@ -111,6 +120,7 @@ inductive Op where
   | new (v : Nat)            -- `v = Xml("e")`
   | append (v w : Nat)       -- `v << w`
   | remove (v j : Nat)       -- `v.remove(j mod numChildren)`
+  | removeE (v w : Nat)      -- `v.remove(w)` (`remove(const Xml&)`)
   | clear (v : Nat)          -- `v.clear()`
   | child (v w j : Nat)      -- `v = w.child(j mod numChildren)`
   | assign (v w : Nat)       -- `v = w`
@@ -126,6 +136,9 @@ def step (h : Heap) : Op → Heap
   | .remove v j => match h.var v with
     | some p => if (h.node p).kids.length = 0 then h else detachAt h p (j % (h.node p).kids.length)
     | none => h
+  | .removeE v w => match h.var v, h.var w with
+    | some p, some e => detachNode h p e
+    | _, _ => h
   | .clear v => match h.var v with
     | some p => clearKids h p
     | none => h
